@@ -91,8 +91,13 @@ def host_key(rng, kind=None):
 
 
 def instant(rng):
+    """(aware datetime, epoch seconds): the same instant is handed to the library under UTC or under another fixed
+    offset - the wire carries the instant, whatever zone the caller's datetime lives in."""
     seconds = rng.choice([0, 1, 2 ** 31 - 1, 2 ** 31, 2 ** 32 - 2, rng.randrange(2 ** 32 - 1)])
-    return datetime.datetime.fromtimestamp(seconds, UTC), seconds
+    zone = UTC
+    if rng.random() < 0.5:
+        zone = datetime.timezone(datetime.timedelta(minutes=rng.choice([60, 120, -300, 330, -480, 765, -30])))
+    return datetime.datetime.fromtimestamp(seconds, zone), seconds
 
 
 def options(rng, critical, valued=True):
